@@ -791,7 +791,10 @@ func (self *Fork) verifyPipelineOutput(outs json.Marshaler, t syntax.Type) (bool
 	switch t := t.(type) {
 	case *syntax.TypedMapType:
 		if outs, ok := outs.(MarshalerMap); ok {
-			for _, v := range outs {
+			// Check the entries in sorted key order, so that the entry
+			// which is reported if several are invalid is repeatable.
+			for _, k := range outs.sortedKeys() {
+				v := outs[k]
 				if ok, msg := self.verifyPipelineOutput(v, t.Elem); !ok {
 					return ok, msg
 				}
